@@ -56,9 +56,11 @@ class Check(HCheck):
         sp = [Space(Cfg("never"), ops, 5 if thorough else 4, name="long/two-levels")]
         # byte alphabet: stems that differ only beyond the first block / in high and low bytes
         lb = [A + L.long_stem(n, f) for n, f in ((75, b"\xff"), (75, b"\x00"), (75, b"{"), (75, b"}"), (75, b"\x80"), (149, b"\x80"), (148, b"{"))]
+        # three-block stems filled with bytes a lazy decoder might strip (NUL padding, whitespace)
+        lb += [A + L.long_stem(n, f) for n, f in ((149, b"\x00"), (223, b"\x00"), (223, b" "), (149, b"\n"))]
         lb.append(A + b"p:" + b"a" * 72 + b"\xff" * 3 + b"|")  # shares the 74-byte head with the 'a' family
         lb.append(A + b"p:" + b"a" * 72 + b"\x00" * 3 + b"|")
-        sp.append(Space(Cfg("never"), [al.page(u, i % 2 == 0) for i, u in enumerate(lb if thorough else lb[:7])], 5 if thorough else 4, name="long/bytes"))
+        sp.append(Space(Cfg("never"), [al.page(u, i % 2 == 0) for i, u in enumerate(lb if thorough else lb[:11])], 5 if thorough else 3, name="long/bytes"))
         # all insertion orders of sibling stems sharing one 74-byte head (BST shapes decided in the tail)
         sib = al.long_lrus((75, 76, 148, 149, 150, 223) if thorough else (75, 76, 148, 149, 223))
         sp.append(Space(Cfg("never"), [al.page(u) for u in sib], 6 if thorough else 5, name="long/orders"))
@@ -70,7 +72,7 @@ class Check(HCheck):
         life = [al.page(la), al.page(lb, True), al.page(lc), al.links((lb, la)), al.OBS, al.clear("never", {}), al.REOPEN]
         sp.append(Space(Cfg("never"), life, 5 if thorough else 4, name="lifecycle/long", dedup=False))
         # very long stems (tails of 9, 29 and 54 blocks): reading in runs, caps on tail length
-        vl = [A + L.long_stem(n, f) for n, f in ((700, b"a"), (2200, b"a"), (2200, b"b"), (4000, b"c"))]
+        vl = [A + L.long_stem(n, f) for n, f in ((700, b"a"), (2200, b"a"), (2200, b"b"), (4000, b"c"), (20000, b"d"))]
         sp.append(Space(Cfg("never"), [al.page(u, i % 2 == 0) for i, u in enumerate(vl)] + [al.page(vl[0] + b"p:k|"), al.create(vl[1]), al.REOPEN], 4 if thorough else 3, name="long/very-long"))
         allb = [A + b"p:" + bytes([b]) + b"|" for b in range(256) if b != 0x7C] + [A + L.long_stem(75, b"a")[:-2] + bytes([b]) + b"|" for b in range(256) if b != 0x7C]
         sp.append(Space(Cfg("never"), [al.page(u) for u in allb], 1, roots=[al.R0, (al.page(A + b"p:\x40|"), al.page(A + L.long_stem(75, b"a")))], name="bytes/all-values"))
